@@ -26,7 +26,9 @@ CONSTANTS Acct,       \* account names (strings): they hold keys and send transa
           InitBal,    \* initial balance of every account (units)
           MaxH,       \* chain length bound
           MaxTx,      \* transactions per block bound
-          MaxCoins    \* bound on confidential outputs ever created
+          MaxCoins,   \* bound on confidential outputs ever created
+          Kinds       \* transaction kinds on the menu (families: the full menu is explored with one
+                      \* transaction per block, multi-transaction blocks with a narrower menu)
 
 Contracts == {"cStore", "cRevert"}   \* keeps what it receives / always reverts
 Holders   == Acct \cup Passive
@@ -34,6 +36,13 @@ Holders   == Acct \cup Passive
 \* inner CALL and reverts if that call fails; with a tight gas limit the inner call (which
 \* carries linkchain's extra transfer fee) runs out of gas and the whole transaction fails
 GasClass  == {"ample", "tight"}
+\* "cStoreTight": a value-bearing call of cStore whose gas limit lies in the window between the
+\* transfer fee and transfer fee + intrinsic gas: admitted, and failed before anything moves
+CallTargets == Contracts \cup {"cStoreTight"}
+\* a fourth contract, cKill: called WITH data it self-destructs in favour of the passive account,
+\* called without data it just accepts what it is sent.  linkchain finalises the state once per
+\* BLOCK: a self-destructed contract stays alive and callable until the end of the block, is then
+\* deleted together with whatever it was sent after the self-destruct (as coded; see NoUndesignedBurn).
 
 VARIABLES bal,      \* Holders -> units
           tok,      \* Holders -> units of token T
@@ -41,12 +50,16 @@ VARIABLES bal,      \* Holders -> units
           coins,    \* sequence of [owner, amt, spent]: the confidential pool, by creation order
           held,     \* units held by the contracts (cStore)
           pay,      \* units held by cPay, a funded contract that pays one unit to the passive account when called
+          kill,     \* [bal, code, dead]: cKill's holdings, whether its code still exists, and (inside a block
+                    \* only) whether it has self-destructed in this block
+          burnt,    \* history: units destroyed outside the two designed exceptions (as coded)
           h,        \* committed height
           spends,   \* history: coin ids spent on the committed chain, in order
           last      \* label of the last step (output only)
-vars == <<bal, tok, nonce, coins, held, pay, h, spends, last>>
+vars == <<bal, tok, nonce, coins, held, pay, kill, burnt, h, spends, last>>
 
-St == [bal |-> bal, tok |-> tok, nonce |-> nonce, coins |-> coins, held |-> held, pay |-> pay, spends |-> spends]
+St == [bal |-> bal, tok |-> tok, nonce |-> nonce, coins |-> coins, held |-> held, pay |-> pay, spends |-> spends,
+       kill |-> kill, burnt |-> burnt]
 
 PayInit == 2
 Supply == Cardinality(Acct) * InitBal + PayInit
@@ -58,6 +71,7 @@ Init == /\ bal = [a \in Holders |-> IF a \in Acct THEN InitBal ELSE 0]
         /\ tok = [a \in Holders |-> InitTok]
         /\ nonce = [a \in Acct |-> 0]
         /\ coins = <<>> /\ held = 0 /\ pay = PayInit /\ h = 0 /\ spends = <<>>
+        /\ kill = [bal |-> 0, code |-> TRUE, dead |-> FALSE] /\ burnt = 0
         /\ last = [blk |-> <<>>, ok |-> TRUE]
 
 (* ---- transactions -------------------------------------------------------- *)
@@ -68,18 +82,22 @@ NonceChoices(s, a) == {s.nonce[a], s.nonce[a] + 1} \cup (IF s.nonce[a] > 0 THEN 
 CoinIds(s) == 1..Len(s.coins)
 
 \* every transaction a block may contain in state s (valid or not)
-Menu(s) ==
+FullMenu(s) ==
      UNION {{Tx("xfer", f, t, a, n) : t \in Acct \ {f}, a \in Amt, n \in NonceChoices(s, f)} : f \in Acct}
   \cup (IF Len(s.coins) < MaxCoins   \* (a bound of the model, not a rule of the ledger)
         THEN UNION {{Tx("dep", f, w, a, s.nonce[f]) : w \in Wallet, a \in Amt} : f \in Acct} ELSE {})
   \cup {Tx("wd", c, t, 0, "ok") : c \in CoinIds(s), t \in Acct}
   \cup (IF Len(s.coins) < MaxCoins THEN {Tx("cx", c, w, 0, "ok") : c \in CoinIds(s), w \in Wallet} ELSE {})
   \cup UNION {{Tx("call", f, c, a, s.nonce[f]) : c \in Contracts, a \in {0} \cup Amt} : f \in Acct}
+  \cup UNION {{Tx("call", f, "cStoreTight", a, s.nonce[f]) : a \in Amt} : f \in Acct}
+  \cup UNION {{Tx("kill", f, "cKill", a, s.nonce[f]) : a \in {0} \cup Amt} : f \in Acct}
+  \cup UNION {{Tx("kfund", f, "cKill", a, s.nonce[f]) : a \in Amt} : f \in Acct}
   \cup {Tx("wd", c, t, 0, cls) : c \in CoinIds(s), t \in Acct, cls \in {"inflate", "commit", "fee"}}
   \cup UNION {{Tx("tok", f, t, a, s.nonce[f]) : t \in Holders \ {f}, a \in Amt} : f \in Acct}
   \cup UNION {{Tx("fwd", f, g, a, s.nonce[f]) : g \in GasClass, a \in Amt} : f \in Acct}
   \cup UNION {{Tx("sst", f, "cSlots", p, s.nonce[f]) : p \in {1, 2}} : f \in Acct}
   \cup UNION {{Tx("pay", f, g, 0, s.nonce[f]) : g \in GasClass} : f \in Acct}
+Menu(s) == {x \in FullMenu(s) : x.k \in Kinds}
 
 \* one transaction on state s: [ok, s]
 Apply(s, tx) ==
@@ -116,6 +134,22 @@ Apply(s, tx) ==
                                   THEN [s EXCEPT !.bal[tx.f] = @ - tx.a, !.bal[FwdTarget] = @ + tx.a, !.nonce[tx.f] = @ + 1]
                                   ELSE [s EXCEPT !.nonce[tx.f] = @ + 1]]
          ELSE [ok |-> FALSE, s |-> s]
+    [] tx.k = "kill" ->  \* call cKill with data (and value a): while its code exists it takes the value and
+                         \* self-destructs: everything it holds goes to the passive account
+         IF tx.n = s.nonce[tx.f]
+         THEN [ok |-> TRUE, s |-> IF s.bal[tx.f] > tx.a
+                                  THEN IF s.kill.code
+                                       THEN [s EXCEPT !.bal[tx.f] = @ - tx.a, !.bal[FwdTarget] = @ + s.kill.bal + tx.a,
+                                                      !.kill = [bal |-> 0, code |-> TRUE, dead |-> TRUE], !.nonce[tx.f] = @ + 1]
+                                       ELSE [s EXCEPT !.bal[tx.f] = @ - tx.a, !.kill.bal = @ + tx.a, !.nonce[tx.f] = @ + 1]
+                                  ELSE [s EXCEPT !.nonce[tx.f] = @ + 1]]
+         ELSE [ok |-> FALSE, s |-> s]
+    [] tx.k = "kfund" -> \* value sent to cKill's address without data: accepted, with or without code
+         IF tx.n = s.nonce[tx.f]
+         THEN [ok |-> TRUE, s |-> IF s.bal[tx.f] > tx.a
+                                  THEN [s EXCEPT !.bal[tx.f] = @ - tx.a, !.kill.bal = @ + tx.a, !.nonce[tx.f] = @ + 1]
+                                  ELSE [s EXCEPT !.nonce[tx.f] = @ + 1]]
+         ELSE [ok |-> FALSE, s |-> s]
     [] tx.k = "dep" ->
          IF tx.n = s.nonce[tx.f] /\ s.bal[tx.f] > tx.a
          THEN [ok |-> TRUE, s |-> [s EXCEPT !.bal[tx.f] = @ - tx.a, !.nonce[tx.f] = @ + 1,
@@ -140,17 +174,22 @@ Apply(s, tx) ==
                                   ELSE [s EXCEPT !.nonce[tx.f] = @ + 1]]
          ELSE [ok |-> FALSE, s |-> s]
 
+\* end of block: self-destructed contracts are deleted with whatever they hold by then
+Finalise(s) == IF s.kill.dead
+               THEN [s EXCEPT !.burnt = @ + s.kill.bal, !.kill = [bal |-> 0, code |-> FALSE, dead |-> FALSE]]
+               ELSE s
 RECURSIVE Exec(_, _)
-Exec(s, blk) == IF blk = <<>> THEN [ok |-> TRUE, s |-> s]
+Exec(s, blk) == IF blk = <<>> THEN [ok |-> TRUE, s |-> Finalise(s)]
                 ELSE LET r == Apply(s, Head(blk))
                      IN IF r.ok THEN Exec(r.s, Tail(blk)) ELSE [ok |-> FALSE, s |-> s]
 
 \* blocks: every sequence of 1..MaxTx menu transactions; later transactions are chosen
 \* from the menu of the state the earlier ones produce (or of the same state if rejected)
-Blocks1(s) == {<<t>> : t \in Menu(s)}
 Ok1(s)     == {x \in Menu(s) : Apply(s, x).ok}
-Blocks2(s) == UNION {{<<t1, t2>> : t2 \in Menu(Apply(s, t1).s)} : t1 \in Ok1(s)}
-Blocks(s) == IF MaxTx >= 2 THEN Blocks1(s) \cup Blocks2(s) ELSE Blocks1(s)
+RECURSIVE Seqs(_, _)
+Seqs(s, n) == IF n = 0 THEN {}
+              ELSE {<<t>> : t \in Menu(s)} \cup UNION {{<<t>> \o r : r \in Seqs(Apply(s, t).s, n - 1)} : t \in Ok1(s)}
+Blocks(s) == Seqs(s, MaxTx)
 
 \* a block is offered; accepted blocks are committed, rejected ones leave everything as it is
 Offer(blk) ==
@@ -159,8 +198,8 @@ Offer(blk) ==
        /\ last' = [blk |-> blk, ok |-> r.ok]
        /\ IF r.ok
           THEN /\ bal' = r.s.bal /\ tok' = r.s.tok /\ nonce' = r.s.nonce /\ coins' = r.s.coins /\ held' = r.s.held
-               /\ pay' = r.s.pay /\ spends' = r.s.spends /\ h' = h + 1
-          ELSE UNCHANGED <<bal, tok, nonce, coins, held, pay, spends, h>>
+               /\ pay' = r.s.pay /\ spends' = r.s.spends /\ kill' = r.s.kill /\ burnt' = r.s.burnt /\ h' = h + 1
+          ELSE UNCHANGED <<bal, tok, nonce, coins, held, pay, spends, kill, burnt, h>>
 
 Next == \E blk \in Blocks(St) : Offer(blk)
 Spec == Init /\ [][Next]_vars
@@ -172,7 +211,11 @@ RECURSIVE SumBal(_)
 SumBal(S) == IF S = {} THEN 0 ELSE LET a == CHOOSE a \in S : TRUE IN bal[a] + SumBal(S \ {a})
 
 \* C06: value is neither created nor destroyed (fees are epsilon here; the harness accounts them exactly)
-Conservation == SumBal(Holders) + SumCoins(coins) + held + pay = Supply
+Conservation == SumBal(Holders) + SumCoins(coins) + held + pay + kill.bal + burnt = Supply
+\* ... and nothing is destroyed outside the designed exceptions.  As coded this does NOT hold: value sent
+\* to a contract after it self-destructed in the same block disappears with it (checked by a config of its
+\* own; the replay reproduces the counterexample on the real application)
+NoUndesignedBurn == burnt = 0
 RECURSIVE SumTok(_)
 SumTok(S) == IF S = {} THEN 0 ELSE LET a == CHOOSE a \in S : TRUE IN tok[a] + SumTok(S \ {a})
 TokenConservation == SumTok(Holders) = TokSupply
@@ -181,12 +224,13 @@ NoNegative == \A a \in Holders : bal[a] >= 0 /\ tok[a] >= 0
 SpentOnce == \A i, j \in DOMAIN spends : i # j => spends[i] # spends[j]
 SpentMarked == \A c \in DOMAIN coins : coins[c].spent <=> \E i \in DOMAIN spends : spends[i] = c
 \* a rejected block changes nothing (block atomicity), an accepted one extends the chain by one
-RejectedIsNoOp == [][~last'.ok => UNCHANGED <<bal, tok, nonce, coins, held, pay, spends, h>>]_vars
+RejectedIsNoOp == [][~last'.ok => UNCHANGED <<bal, tok, nonce, coins, held, pay, spends, kill, burnt, h>>]_vars
 NonceCountsExecuted == [][\A a \in Acct : nonce'[a] >= nonce[a]]_vars
 
 (* ---- export ---------------------------------------------------------------- *)
-Proj(b, t, n, c, hd, py, sp) == [bal |-> b, tok |-> t, nonce |-> n, coins |-> c, held |-> hd, pay |-> py, spends |-> sp]
-Edge == PrintT(ToJson([from |-> Proj(bal, tok, nonce, coins, held, pay, spends), act |-> last',
-                       to |-> Proj(bal', tok', nonce', coins', held', pay', spends')]))
-View == <<bal, tok, nonce, coins, held, pay, spends, h>>
+Proj(b, t, n, c, hd, py, sp, k, bu) == [bal |-> b, tok |-> t, nonce |-> n, coins |-> c, held |-> hd, pay |-> py, spends |-> sp,
+                                        kbal |-> k.bal, kcode |-> k.code, burnt |-> bu]
+Edge == PrintT(ToJson([from |-> Proj(bal, tok, nonce, coins, held, pay, spends, kill, burnt), act |-> last',
+                       to |-> Proj(bal', tok', nonce', coins', held', pay', spends', kill', burnt')]))
+View == <<bal, tok, nonce, coins, held, pay, spends, kill, burnt, h>>
 =============================================================================
